@@ -148,6 +148,10 @@ def stage(ctx, st, n, length, predicates):
     impl = ctx.run_impl("impl_dimlink.py", {"cases": cases}, timeout=3000)
     failures = []
     for c, obs in zip(cases, impl):
+        for i, x in enumerate(obs):
+            if not x.pop("objects_agree", True):
+                failures.append(("two Python objects of the same dimension / array answer differently", {"init": c["init"], "ops": c["ops"][:i + 1]}, {}))
+                break
         for p in predicates:
             for what, step, detail in p(c, obs):
                 failures.append((what, {"init": c["init"], "ops": c["ops"][:step + 1]}, detail))
